@@ -295,6 +295,54 @@ def c19_text_fidelity():
                 run_case("fidelity:apply", dict(d, f="apply"), lambda: jsonlogic_rs.apply(rule, data), json.dumps(rule), json.dumps(data))
 
 
+WS_NOT_JSON = ["\x0b", "\x0c", "\x85", "\xa0", "\u1680", "\u2000", "\u2003", "\u200a", "\u2028", "\u2029", "\u202f", "\u205f", "\u3000", "\ufeff", "\u200b", "\x1c", "\x00", "\x1f"]
+
+
+def c19_padding():
+    """a JSON text padded with white space that is not JSON white space is malformed: ValueError through every
+    way a text reaches the library (both texts of apply_serialized, a serializer's output)"""
+    for i, c in enumerate(WS_NOT_JSON):
+        if i % nshards != shard:
+            continue
+        for body in ('{"var":"a"}', '1', '"s"', '[1,2]'):
+            for t in (c + body, body + c, " " + body + c + "\n", c + " " + body):
+                d = {"text": ascii(t)}
+                run_case("padded:apply_serialized(rule)", dict(d, f="apply_serialized", pos="rule"), lambda: jsonlogic_rs.apply_serialized(t, '{"a":1}'), t, '{"a":1}')
+                run_case("padded:apply_serialized(rule-only)", dict(d, f="apply_serialized", pos="rule", data="omitted"), lambda: jsonlogic_rs.apply_serialized(t), t, "null")
+                run_case("padded:apply_serialized(data)", dict(d, f="apply_serialized", pos="data"), lambda: jsonlogic_rs.apply_serialized('{"var":""}', t), '{"var":""}', t)
+                run_case("padded:apply(serializer)", dict(d, f="apply", serializer="pads its output"), lambda: jsonlogic_rs.apply({"var": "a"}, {"a": 1}, lambda o: t), t, t)
+        # JSON white space proper is fine
+        for t in (" \t\r\n1\n ", "\n{\"var\" : \"a\"}\r\n"):
+            run_case("padded:json-whitespace", dict(f="apply_serialized", text=ascii(t)), lambda: jsonlogic_rs.apply_serialized(t, ' {"a" : 2} '), t, ' {"a" : 2} ')
+
+
+def c19_large_twins():
+    """consecutive calls whose texts have the same (large) length and different contents: each call is a function of
+    its own arguments (no text, parse result or buffer is carried over by length, address or position)"""
+    if shard != 0:
+        return
+    for size in (1100, 4096, 70000):
+        pad = "x" * size
+        for i in range(10):
+            rule = {"cat": [str(i), {"var": "s"}, pad]}
+            data = {"s": "-", "n": i, "pad": pad}
+            d = {"size": size, "i": i}
+            run_case("large-twins:apply(rule varies)", dict(d, f="apply"), lambda: jsonlogic_rs.apply(rule, {"s": "-"}), json.dumps(rule), '{"s": "-"}')
+            run_case("large-twins:apply(data varies)", dict(d, f="apply"), lambda: jsonlogic_rs.apply({"var": "n"}, data), '{"var": "n"}', json.dumps(data))
+            run_case("large-twins:apply_serialized(data varies)", dict(d, f="apply_serialized"),
+                     lambda: jsonlogic_rs.apply_serialized('{"var":"n"}', json.dumps({"n": i, "pad": pad})), '{"var":"n"}', json.dumps({"n": i, "pad": pad}))
+            run_case("large-twins:apply_serialized(rule varies)", dict(d, f="apply_serialized"),
+                     lambda: jsonlogic_rs.apply_serialized(json.dumps({"cat": [str(i), pad]})), json.dumps({"cat": [str(i), pad]}), "null")
+        # a malformed text right after a well-formed one of the same length, and back
+        good = json.dumps({"cat": ["g", pad]})
+        bad = good[:-1] + " "
+        for k in range(4):
+            run_case("large-twins:good", dict(size=size, k=k, f="apply_serialized"), lambda: jsonlogic_rs.apply_serialized(good), good, "null")
+            run_case("large-twins:bad-same-length", dict(size=size, k=k, f="apply_serialized"), lambda: jsonlogic_rs.apply_serialized(bad), bad, "null")
+            run_case("large-twins:bad-data-same-length", dict(size=size, k=k, f="apply_serialized"), lambda: jsonlogic_rs.apply_serialized('{"var":""}', bad), '{"var":""}', bad)
+            run_case("large-twins:good-data", dict(size=size, k=k, f="apply_serialized"), lambda: jsonlogic_rs.apply_serialized('{"var":"cat.0"}', good), '{"var":"cat.0"}', good)
+
+
 def c19_long_errors():
     """library errors that quote long non-ASCII content must still be ValueError"""
     units = ["é", "€", "水", "😀", "z"]
@@ -519,6 +567,8 @@ try:
         c19_long_errors()
         c19_unencodable()
         c19_text_fidelity()
+        c19_padding()
+        c19_large_twins()
     else:
         c01()
 finally:
